@@ -455,6 +455,21 @@ class DstInner:
 
 
 @dataclass
+class SrcMap:
+    labels: Dict[str, int]
+    opt: Optional[Dict[str, int]] = None
+    seq: List[int] = field(default_factory=list)
+
+
+@dataclass
+class DstMap:
+    """Destination fields annotated with the abstract collection types."""
+    labels: Mapping[str, int]
+    opt: Optional[Mapping[str, Optional[int]]] = None
+    seq: Sequence[int] = ()
+
+
+@dataclass
 class SrcOuter:
     inner: SrcInner
     items: List[SrcInner] = field(default_factory=list)
@@ -757,6 +772,7 @@ DATA: Dict[str, Any] = {
     "deep_full": {"a": 2, "cfg": {"z": [{"y": 3}]}, "long": {"q": [1]}}, "l_deep": [{}, {"a": 1}, {"cfg": {}}],
     "withextra5": {"a": 1, "meta": {"k": [1]}, "labels": {"env": {"name": "prod"}}, "zzz": [7], "yyy": {"k": [1]}},
     "withextra5_plain": {"a": 1, "extra": {"meta": {"s": [1]}}},
+    "withextra5_head": {"head": {"a": 1}, "meta": {"k": [1]}, "labels": {"env": [1]}, "extra": {"zzz": [7]}},
     "im1": -1, "im2": -2, "lm1": [-1, -1], "lm2": [-2], "def_m": {"x": 7},
     "dt_iso": "2020-01-02T03:04:05", "dt_fmt": "2020-01-02 03:04:05", "dt_ts": 1577934245, "date_iso": "2020-01-02", "time_iso": "03:04:05",
     "td": 12.5, "uuid": "12345678-1234-5678-1234-567812345678", "ldt": ["2020-01-02T03:04:05", "2021-01-02T03:04:05"],
@@ -817,7 +833,7 @@ BATTERY: Dict[str, List[str]] = {
     "FlagGap": ["i1"], "UserFG": ["m_a"], "GroupFG": ["m_a"], "ListFlagGap": ["l1"],
     "PM": ["pm"],
     "DeepDefaults": ["empty_d", "m_a", "deep_full"], "ListDeepDefaults": ["l_deep"],
-    "WithExtra5": ["withextra5", "withextra5_plain", "withextra"],
+    "WithExtra5": ["withextra5", "withextra5_plain", "withextra5_head", "withextra"],
     "LitM1": ["im1", "im2"], "LitM2": ["im2", "im1"], "LitM1x": ["im1", "im2"], "LitM2x": ["im2", "im1"], "OptLitM1": ["im1", "im2", "none"],
     "OptLitM2": ["im2", "im1", "none"], "ListLitM1": ["lm1", "lm2"], "ListLitM2": ["lm2", "lm1"], "DefM1": ["empty_d", "def_m"], "DefM2": ["empty_d", "def_m"],
     "DateTime": ["dt_iso", "dt_fmt", "dt_ts", "date_iso"], "Date": ["date_iso", "dt_iso"], "Time": ["time_iso"], "TimeDelta": ["td", "i1"],
@@ -971,11 +987,14 @@ OBJECTS: Dict[str, Any] = {
     "o_withextra5": lambda: WithExtra5(1, {"k": 1}, {"env": {"name": "prod"}},
                                        {"meta": {"source": "api"}, "labels": {"env": {"region": "eu"}}, "other": [5]}),
     "o_withextra5_nc": lambda: WithExtra5(2, [1], {"env": [1]}, {"zzz": [7]}),
+    # extra data with a mapping under the key of the nested level the layout itself creates, and under an as-is field
+    "o_withextra5_head": lambda: WithExtra5(3, {"k": 1}, {"env": {"name": "prod"}}, {"head": {"b": 2}, "meta": {"source": "api"}}),
     "o_im1": lambda: -1, "o_im2": lambda: -2, "o_lm1": lambda: [-1], "o_lm2": lambda: [-2, -2], "o_defm1": lambda: DefM1(),
     "o_defm2": lambda: DefM2(), "o_defm1x": lambda: DefM1(-2, (-2, 5)), "o_defm2x": lambda: DefM2(-1, (-1, 5)),
     "o_dt": lambda: _dtm.datetime(2020, 1, 2, 3, 4, 5), "o_date": lambda: _dtm.date(2020, 1, 2), "o_time": lambda: _dtm.time(3, 4, 5),
     "o_td": lambda: _dtm.timedelta(seconds=12, milliseconds=500), "o_uuid": lambda: _uuid.UUID(int=7),
     "o_ldt": lambda: [_dtm.datetime(2020, 1, 2, 3, 4, 5), _dtm.datetime(2021, 1, 2)], "o_ddt": lambda: {"k": _dtm.datetime(2020, 1, 2)},
+    "o_srcmap": lambda: SrcMap({"a": 1}, None, [1, 2]), "o_srcmap_opt": lambda: SrcMap({"a": 1}, {"b": 2}, []),
     "o_grey": lambda: "grey", "o_pixel": lambda: Pixel("grey", Shade.DARK, Color.G, Perm.RD | Perm.WR),
     "o_lpixel": lambda: [Pixel("red"), Pixel("white")], "o_lshade": lambda: [Shade.DARK], "o_d_lit": lambda: {"k": "blue"},
     "o_lperm": lambda: [Perm.RD, Perm.RD | Perm.WR],
@@ -1063,7 +1082,7 @@ DUMP_BATTERY: Dict[str, List[str]] = {
     "Unsupported": ["o_unsupported"], "FwdUser": ["o_fwd", "o_fwd_none"], "CallableT": ["o_i1"], "ListUnsupported": ["o_l01"],
     "PM": ["o_pm"],
     "DeepDefaults": ["o_deep", "o_deep_full"], "ListDeepDefaults": ["o_ldeep"],
-    "WithExtra5": ["o_withextra5", "o_withextra5_nc"],
+    "WithExtra5": ["o_withextra5", "o_withextra5_nc", "o_withextra5_head"],
     "LitM1": ["o_im1", "o_im2"], "LitM2": ["o_im2", "o_im1"], "LitM1x": ["o_im1"], "LitM2x": ["o_im2"], "OptLitM1": ["o_im1", "o_none"],
     "OptLitM2": ["o_im2", "o_none"], "ListLitM1": ["o_lm1"], "ListLitM2": ["o_lm2"], "DefM1": ["o_defm1", "o_defm1x"], "DefM2": ["o_defm2", "o_defm2x"],
     "DateTime": ["o_dt"], "Date": ["o_date"], "Time": ["o_time"], "TimeDelta": ["o_td"], "UUID": ["o_uuid"], "ListDateTime": ["o_ldt"],
@@ -1091,6 +1110,7 @@ CONVERTERS: Dict[str, Tuple[Any, Any, List[str]]] = {
     "Outer": (SrcOuter, DstOuter, ["o_srcouter"]),
     "OuterSame": (SrcOuter, DstOuterSame, ["o_srcouter"]),
     "Inner": (SrcInner, DstInner, ["o_srcinner"]),
+    "MapAbs": (SrcMap, DstMap, ["o_srcmap", "o_srcmap_opt"]),
     "InnerSame": (SrcInner, SrcInner, ["o_srcinner"]),
     "ListInner": (List[SrcInner], List[DstInner], ["o_lsrcinner"]),
     "M1M2": (M1, M2, ["o_m1", "o_m1T"]), "M2M1": (M2, M1, ["o_m2"]), "M1M3": (M1, M3, ["o_m1"]),
@@ -1190,6 +1210,8 @@ RECIPES: Dict[str, Any] = {
                                  name_mapping(WithExtra4, extra_in=["e1", "e2"], extra_out=["e1", "e2"]),
                                  name_mapping(WithExtra5, extra_in="extra", extra_out="extra"),
                                  name_mapping(KwModel, extra_in=ExtraKwargs())],
+    "nm_extra_paths": lambda: [name_mapping(WithExtra5, map={"a": ("head", "a")}, extra_out="extra"),
+                               name_mapping(WithExtra, map={"a": ("head", "a")}, extra_out="extra")],
     "nm_extra_forbid_all": lambda: [name_mapping(extra_in=ExtraForbid())],
     "chain_node_children": lambda: [loader(P[Outer1].node.children, _reverse, Chain.LAST)],
     "chain_int_last": lambda: [loader(int, _inc, Chain.LAST)],
@@ -1227,6 +1249,7 @@ RECIPE_TYPES: Dict[str, List[str]] = {
     "scoped_int": ["M1", "M2", "ListM1", "int"], "scoped_node_value": ["Node", "Holder", "Outer1", "ListNode"],
     "scoped_linked_head": ["LinkedInt", "LinkedStr", "LinkedBool"], "enum_by_name": ["Color", "Status", "Shade", "LitColorR", "LitShade"],
     "enum_by_name_all": ["Color", "Status", "Shade", "Perm"],
+    "nm_extra_paths": ["WithExtra5", "WithExtra5", "WithExtra"],
     "dt_format": ["DateTime", "ListDateTime", "DictStrDateTime"], "dt_timestamp": ["DateTime", "ListDateTime"],
     "flag_names": ["Perm"], "validator_inner": ["Inner", "Outer1", "Outer2"], "dumper_scoped": ["Node", "Holder", "ListNode"],
     "nm_as_list": ["M1", "ListM1", "M2"], "nm_extra_collect": ["WithExtra", "KwModel", "WithExtra2", "WithExtra3", "WithExtra4", "WithExtra4", "WithExtra5", "WithExtra5"], "nm_extra_forbid": ["Inner", "Outer1"],
